@@ -1,4 +1,5 @@
 """C03 - counted votes are a floor and reported units are final."""
+from harness import extract as X
 from harness.props import _api_common as K
 from harness.props import c01
 
@@ -11,6 +12,10 @@ ASSUMPTIONS = [
     "a feed row with a NaN count is skipped by the whole-number monitor (outside the quantifier)",
 ]
 RULE = c01.RULE + "; 30% of partial units carry a count five times the baseline (partial count above the modelled value)"
+
+
+def extract(run):
+    return X.generate("C03")
 
 
 def explore(run, driver, budget):
